@@ -125,6 +125,23 @@ func (f *obsFunc) GetVariables() []data.Variable {
 	return []data.Variable{node.NewVariable(nil, "l", 0, nil), node.NewVariable(nil, "v", 1, nil)}
 }
 
+type inFunc struct{ vals []data.Value }
+
+func (f *inFunc) Call(ctx data.Context) (data.GetValue, data.Control) {
+	iv, _ := ctx.GetIndexValue(0)
+	if n, ok := iv.(*data.IntValue); ok && n.Value >= 0 && n.Value < len(f.vals) {
+		return f.vals[n.Value], nil
+	}
+	return data.NewNullValue(), nil
+}
+func (f *inFunc) GetName() string { return "__in" }
+func (f *inFunc) GetParams() []data.GetValue {
+	return []data.GetValue{node.NewParameter(nil, "i", 0, nil, nil)}
+}
+func (f *inFunc) GetVariables() []data.Variable {
+	return []data.Variable{node.NewVariable(nil, "i", 0, nil)}
+}
+
 // ScriptEnv is a fresh interpreter instance with output capture.
 type ScriptEnv struct {
 	P      *parser.Parser
@@ -213,6 +230,10 @@ func RunScript(req *Req) *Rep {
 	rep := &Rep{}
 	e := NewScriptEnv(req.Loads)
 	defer func() { data.WriteOutput = data.DefaultOutputWriter }()
+	if ins := inputsFrom(req.Data); ins != nil {
+		// __in(i): the i-th input value of the request (arbitrary bytes, built in Go)
+		e.VM.AddFunc(&inFunc{vals: ins})
+	}
 	name := req.Name
 	var prog *node.Program
 	var acl data.Control
